@@ -234,6 +234,49 @@ def run(ctx, rep):
         upd = [bb for bb, t, cal, c in b.calls() if cal and cal.endswith("Controller::<C>::update")]
         rep.check(len(upd) == 1 and b.on_cycle(upd[0]), "R5.4", "R5.4|single_consumer", "one consumer applies the updates sequentially", cr)
 
+    # ---------- R5.6 one consumer per packet stream
+    # The reader's packet batches go to exactly one consumer thread (analysis or writer).  Two consumers on the same
+    # channel would share the batches by whoever receives first: which packets are analysed depends on scheduling.
+    pr = "fastpasta::process"
+    if pr in f.fns:
+        # decided for each of the 24 combinations of (check given, view given, filter set, output mode) by evaluating
+        # process() with the configuration accessors replaced by the combination's values and counting the consumer
+        # threads it starts (a CFG path count would pair branches that exclude each other)
+        from ..thir import Agg as _Agg, Sym as _Sym, Cond as _Cond, Unsupported as _Uns
+        some = lambda x: _Agg("core::option::Option", "Some", {"0": x})
+        none = _Agg("core::option::Option", "None", {})
+        dom = [k for k in f.adts if k.endswith("::DataOutputMode")]
+        many, undecided, n_comb = [], [], 0
+        for chk in (False, True):
+            for vw in (False, True):
+                for flt in (False, True):
+                    for om in ("None", "File", "Stdout"):
+                        n_comb += 1
+                        ev.call_hooks = [
+                            (lambda fn, res: (res or fn).endswith("::check") and "Opt" in (res or fn), lambda n, a, chk=chk: some(_Sym("CHK")) if chk else none),
+                            (lambda fn, res: (res or fn).endswith("::view") and "Opt" in (res or fn), lambda n, a, vw=vw: some(_Sym("VW")) if vw else none),
+                            (lambda fn, res: (res or fn).endswith("::filter_enabled"), lambda n, a, flt=flt: _Cond("true" if flt else "false")),
+                            (lambda fn, res: (res or fn).endswith("::output_mode"), lambda n, a, om=om: _Agg(dom[0] if dom else "DataOutputMode", om, {} if om != "File" else {"0": _Sym("P")})),
+                        ]
+                        ev.watch = lambda c: c.endswith("::spawn_analysis") or c.endswith("::spawn_writer")
+                        try:
+                            recs_ = [o for o in ev.collect_ifs(pr, [_Sym("cfg"), _Sym("loader"), _Sym("stat_send"), _Sym("stop")]) if "call" in o and not o.get("closure")]
+                        except _Uns as e:
+                            undecided.append("%s" % e)
+                            recs_ = []
+                        finally:
+                            ev.call_hooks = []
+                            ev.watch = None
+                        live = [o for o in recs_ if not any(g in ("false", "not true") for g in o["guard"])]
+                        if any(g not in ("true", "not false") for o in live for g in o["guard"]):
+                            undecided.append("check=%s view=%s filter=%s output=%s" % (chk, vw, flt, om))
+                        if len(live) > 1:
+                            many.append("check=%s view=%s filter=%s output=%s → %s" % (chk, vw, flt, om, [o["call"].split("::")[-1] for o in live]))
+        rep.check(not many and not undecided, "R5.6", "R5.6|single_consumer_of_batches", "in each of the %d option combinations process() gives the reader's batch channel to at most one consumer thread" % n_comb, pr,
+                  "process() starts more than one consumer of the reader's batch channel (the batches are then split between them by scheduling): %s%s" % (many[:4], (" — undecided: %s" % undecided[:3]) if undecided else ""))
+    else:
+        rep.missing("R5.6", pr)
+
     # ---------- R5.5 messages of different producers never share a sort key
     # The error list is ordered by the leading offset only (stable): two messages with the same offset keep their
     # arrival order, which is deterministic only when both come from the same thread.  Validators report at a packet's
